@@ -153,22 +153,25 @@ def main(argv=None):
                     info = ' last case saved to %s' % keep
                 harness.append('%s shard %s: worker died rc=%s%s\n%s' % (sub.name, args[5], rc, info, txt))
 
-    # corpus replays (in-process per file through a worker-like subprocess for isolation)
+    # corpus replays (one subprocess per file for isolation, run side by side)
     corpus_fail = []
     corpus_known = {}
-    for fn in corpus:
+
+    def _replay(fn):
         path = os.path.join(corpus_dir, fn)
         p = subprocess.run([PY, '-m', 'vlib.main', prop, '--replay', path], cwd=ROOT, env=child_env(),
                            stdout=subprocess.PIPE, stderr=subprocess.STDOUT)
-        outtxt = p.stdout.decode(errors='replace')
-        for line in outtxt.splitlines():
-            if line.startswith('KNOWN-FINDING:'):
-                k = line.split()[-1]
-                corpus_known[k] = corpus_known.get(k, 0) + 1
-        if p.returncode == 1:
-            corpus_fail.append((path, outtxt[-2000:]))
-        elif p.returncode != 0:
-            harness.append('corpus %s: rc=%s %s' % (fn, p.returncode, outtxt[-2000:]))
+        return fn, path, p.returncode, p.stdout.decode(errors='replace')
+    with concurrent.futures.ThreadPoolExecutor(max_workers=NPROC) as ex:
+        for fn, path, rc, outtxt in ex.map(_replay, corpus):
+            for line in outtxt.splitlines():
+                if line.startswith('KNOWN-FINDING:'):
+                    k = line.split()[-1]
+                    corpus_known[k] = corpus_known.get(k, 0) + 1
+            if rc == 1:
+                corpus_fail.append((path, outtxt[-2000:]))
+            elif rc != 0:
+                harness.append('corpus %s: rc=%s %s' % (fn, rc, outtxt[-2000:]))
 
     # ---- merge
     known_ids = core.load_known(prop)
